@@ -92,6 +92,7 @@ class P(vlib.Prop):
     instance_obligations = []  # all_mutators_guarded_holds is a theorem of Properties.v
     harness_module = "C07.Harness"
     case_type = "case"
+    check_fn = "check_both"
     shard = 20
     harnesses = [
         vlib.Harness("pmetric", "pdata", "./pmetric/", {"zz_verif_c07_test.go": "C07/pmetric_test.go"},
@@ -126,6 +127,51 @@ class P(vlib.Prop):
         "scalar oneof/optional wrappers are immutable: replaced, never written through (modelled as inline values CI)",
         "Go int is 64-bit; scalar payloads are abstracted to integers (strings, floats, ids, enums carry small integers in the harness)",
     ]
+
+    CLAUSES = {0: "result-code", 1: "copy-equals-source", 2: "move-transfers-and-empties-source", 3: "move-and-append-keeps-order",
+               4: "remove-if-keeps-expected-elements", 5: "sort-permutes", 6: "read-only-mutator-panics-and-changes-nothing",
+               7: "local-operation-result (append / put / set / ensure-capacity / from-raw)", 8: "independence (a value the step does not write changed)",
+               9: "new-value-is-empty"}
+
+    def extra_checks(self, ctx):
+        """Failing-input search: the decidable checker spec_ok (Harness.v; sound and complete for `Conforms`, Proofs3.v) replays
+        every OBSERVED case on the pure interpreter -- the statement of the property -- without the concrete step function.
+        A case on which it is false is a concrete history on which the property fails: reported with the violated clause."""
+        # (2) a broken translator-tie obligation: enumerate the finite domain for the arguments on which the generated and the
+        # hand-written encoding differ; the programs of this run already use every tag of these domains (generator histograms),
+        # so the implementation HAS been run on histories that use them: a clause violation would show up below.
+        if any("Tie.v" in w for w, _ in ctx.broken):
+            exp = {"StateMutable": 0, "StateReadOnly": 1, "ValueTypeEmpty": 0, "ValueTypeStr": 1, "ValueTypeInt": 2, "ValueTypeDouble": 3,
+                   "ValueTypeBool": 4, "ValueTypeMap": 5, "ValueTypeSlice": 6, "ValueTypeBytes": 7, "MetricTypeEmpty": 0, "MetricTypeGauge": 1,
+                   "MetricTypeSum": 2, "MetricTypeHistogram": 3, "MetricTypeExponentialHistogram": 4, "MetricTypeSummary": 5,
+                   "NumberDataPointValueTypeEmpty": 0, "NumberDataPointValueTypeInt": 1, "NumberDataPointValueTypeDouble": 2,
+                   "ExemplarValueTypeEmpty": 0, "ExemplarValueTypeInt": 1, "ExemplarValueTypeDouble": 2}
+            try:
+                gen = dict((m.group(1), int(m.group(2))) for m in re.finditer(r"^Definition (\w+) : Z := (-?\d+)\.", open(os.path.join(vlib.COQ, "Generated", "C07Consts.v")).read(), re.M))
+                diff = ["%s: code says %s, model encodes %d" % (k, gen.get(k, "<gone>"), v) for k, v in sorted(exp.items()) if gen.get(k) != v]
+                diff += ["%s = %d: constant unknown to the model" % (k, v) for k, v in sorted(gen.items()) if k not in exp]
+                ctx.broken.append(("translator tie: arguments on which generated and hand-written encodings differ: " + ("; ".join(diff) or "none among the constants (method sets / String methods differ)"), ""))
+            except Exception as ex:
+                ctx.notes.append("tie diff failed: %r" % ex)
+        # the standard pass evaluated check_both = check_case && spec_ok on EVERY case; for the failing ones ask which part failed
+        terms = [m["term"] for m in ctx.mismatches]
+        ctx.extra_coverage["spec_checker"] = {"cases_checked_by_spec_ok": len([c for c in ctx.cases if c["harness"] == "pmetric"]),
+                                              "cases_failing_check_both": len(terms)}
+        seen = set()
+        for t in terms[:12]:
+            if len(seen) >= 3:
+                break
+            v = vlib.coq_eval_term(ctx, self.harness_module, "spec_verdict %s" % t) if len(t) < 60000 else ""
+            m = re.search(r"Some \((\d+), (\d+), (\d+)\)", v)
+            if not m:
+                continue  # the observation conforms to the property; only the concrete model (e.g. a capacity) disagrees
+            step, clause, h = int(m.group(1)), int(m.group(2)), int(m.group(3))
+            if clause in seen:
+                continue
+            seen.add(clause)
+            ctx.oracle.append({"kind": "clause-violated-" + self.CLAUSES.get(clause, "?").split(" ")[0], "term": t, "harness": "pmetric",
+                               "detail": "the observed behaviour does not conform to the pure semantics of the property: clause '%s' fails at step %d "
+                                         "(0-based) of this program, handle %d; found by spec_ok over the observed case" % (self.CLAUSES.get(clause, "?"), step, h)})
 
     def translate(self, ctx):
         """(T) mutator table from a source scan of every pdata data-model package ->
